@@ -83,10 +83,15 @@ def _worker(arg) -> Acc:
         acc.sample({"configuration": cfg.sid(), "outcomes": ce.outcomes, "distinct_specifications": len(ce.seen_specs)})
     env.clear_library_caches()
     dw._BF_CACHE.clear()
+    from mc import domain_g as dg
+
+    dg._TREES.clear()
     return acc
 
 
 def wants_all_slicings(cfg: Cfg, tier: str) -> bool:
+    if getattr(cfg, "grammar", None) is not None:
+        return tier != "quick" and not cfg.stats and cfg.pack == "g" and cfg.db in ("RuleDB", "Forest") and len(cfg.grammar) == 1
     if cfg.stats or cfg.smallest or cfg.debug or cfg.compressed:
         return False
     if tier == "quick":
